@@ -907,3 +907,100 @@ def split_cases(R):
     if cur:
         cases.append(cur)
     return cases
+
+
+# ------------------------------------------------------------------------------------------- JSON form (C19)
+
+def json_able(t):
+    """reference-free, all arrays one-dimensional"""
+    k = t[0]
+    if k in ("scalar", "string"):
+        return True
+    if k == "struct":
+        return all(json_able(ft) for _, ft in t[2])
+    if k == "array":
+        return len(t[2]) == 1 and json_able(t[1])
+    return False
+
+
+def jt_tokens(t):
+    k = t[0]
+    if k == "scalar":
+        return "n"
+    if k == "string":
+        return "s"
+    if k == "array":
+        return "[ " + jt_tokens(t[1]) + " ]"
+    return "{ " + " ".join(f"{n} {jt_tokens(ft)}" for n, ft in t[2]) + " }"
+
+
+def jv_tokens(t, e):
+    k = t[0]
+    if k == "scalar":
+        return f"n{bits_of(t, e)}"
+    if k == "string":
+        return "s" + (e.encode().hex() or "-")
+    if k == "array":
+        return "[ " + " ".join(jv_tokens(t[1], x) for x in e[2]) + " ]"
+    return "{ " + " ".join(jv_tokens(ft, e[n]) for n, ft in t[2]) + " }"
+
+
+def canon_json(t, j):
+    """canonical string of a real `_to_json()` result, numbers as bit patterns of the declared scalar type"""
+    k = t[0]
+    if k == "scalar":
+        return str(bits_of(t, j))
+    if k == "string":
+        return '"' + j.encode().hex() + '"'
+    if k == "array":
+        return "[" + ",".join(canon_json(t[1], x) for x in j) + "]"
+    return "{" + ",".join(f"{n}:{canon_json(ft, j[n])}" for n, ft in t[2]) + "}"
+
+
+def run_json(tier, seed):
+    """C19 (JSON form): T(x._to_json()) reproduces x, for reference-free structs and one-dimensional arrays"""
+    xo = common.import_xobjects()
+    r = random.Random(seed * 31 + 5)
+    n = {"quick": 150, "thorough": 3000}[tier]
+    fails, tags = [], collections.Counter()
+    lines, expect, ctxs = [], [], []
+    g = T.G(r, refs=False, max_nd=1)
+    done = 0
+    while done < n:
+        t = g.ty(r.choice([1, 2, 2, 3]), compound_only=True)
+        if not json_able(t) or T.names_clash(t):
+            continue
+        done += 1
+        cache = {}
+        cls = T.build(t, cache)
+        d, e = T.val(t, r)
+        arg = T.to_py(t, d, cache, "py")
+        sx = T.sexp(t)
+        ctx = {"component": "json", "type": sx, "value": repr(d)[:1500]}
+        try:
+            obj = cls(arg)
+            j = obj._to_json()
+        except Exception as ex:
+            fails.append(common.Failure("oracle", "C19:to_json-raises:" + type(ex).__name__, f"{sx[:200]}: {str(ex)[:200]}", ctx))
+            continue
+        try:
+            want = expect_str(t, e, cache)
+            back = cls(j)
+            got = deep_str(t, back, cache)
+            tags["json.roundtrip"] += 1
+            if got != want:
+                fails.append(common.Failure("oracle", "C19:json-roundtrip-differs", f"{sx[:200]}: T(x._to_json()) reads {got[:160]}, x holds {want[:160]}", ctx))
+        except Exception as ex:
+            fails.append(common.Failure("oracle", "C19:from_json-raises:" + type(ex).__name__, f"{sx[:200]} value {repr(d)[:120]}: constructing from the JSON form raises {type(ex).__name__}: {str(ex)[:160]}", ctx))
+        try:
+            lines.append(f"json {jt_tokens(t)} | {jv_tokens(t, e)}")
+            expect.append(canon_json(t, j) + " same")
+            ctxs.append(ctx)
+        except Exception as ex:
+            fails.append(common.Failure("oracle", "C19:json-form-unexpected", f"{sx[:200]}: {type(ex).__name__} {str(ex)[:100]}: {j!r}"[:400], ctx))
+    got = common.run_driver("dict", lines)
+    mism = []
+    for l, e_, g_, c in zip(lines, expect, got, ctxs):
+        if e_ != g_:
+            mism.append(common.Failure("tie", "dict-tie:json", f"{c['type'][:200]}: implementation `{e_[:160]}` model `{g_[:160]}`", c))
+    return {"failures": fails, "mismatches": mism, "lines": len(lines), "distinct": done, "tags": dict(tags), "samples": lines[:3]}
